@@ -49,3 +49,49 @@ fn c12_skip_decimal_nodes() {
 	std::mem::forget(r);
 }
 
+
+// ---- also removed: integer-hinted scale-0 decimal decode (read_decimal) does not finish in 900 s although the
+// rust_decimal part is dynamically unreachable on that path (same finding as in the design phase).
+
+//@ harness: c03_decimal_integer_hint
+//@   props: C03, C04, C01
+//@   tier: quick
+//@   kind: bounded(input length <= 6: length prefix + up to 5 payload bytes for decimal over bytes; decimal over fixed(2)); scale 0, integer-hinted target (i128) - the path of read_decimal that does not enter rust_decimal
+//@   fn: de::deserializer::types::decimal::read_decimal (DecimalMode::Regular, VisitorHint::I128) via <i128 as Deserialize> on decimal nodes
+//@   domain: every byte string of length 0..=6
+//@   post: bytes-decimal: Ok(v) iff valid length L (0 <= L <= 16) with L bytes available, v == big-endian two's-complement value of the payload (sign-extended; the EMPTY payload is 0), prefix + L consumed; otherwise Err. fixed(2)-decimal: Ok iff 2 bytes available, v their sign-extended value. Never a panic (index/overflow checks are obligations)
+#[kani::proof]
+#[kani::unwind(19)]
+#[kani::stub(alloc::fmt::format, stub_format)]
+fn c03_decimal_integer_hint() {
+	static DB: SchemaNode<'static> = decimal_bytes_node(0);
+	static DF: SchemaNode<'static> = decimal_fixed_node(2, 0);
+	let buf: [u8; 6] = kani::any();
+	let len: usize = kani::any();
+	kani::assume(len <= 6);
+	let input = &buf[..len];
+	let mut st = state_over(&DB, input);
+	let r = <i128 as Deserialize>::deserialize(st.deserializer());
+	let consumed = len - remaining(&mut st.reader);
+	match spec_dec_long(input) {
+		Some((l, n)) if l >= 0 && l <= 16 && (l as usize) <= len - n => {
+			let payload = &input[n..n + l as usize];
+			kani::cover!(l == 0, "COV empty payload denotes zero");
+			kani::cover!(l == 2 && payload[0] >= 0x80, "COV negative two-byte value");
+			assert!(matches!(r, Ok(v) if v == spec_twos_complement(payload)), "OBL C03.decimal.value_is_sign_extended_big_endian_payload");
+			assert!(consumed == n + l as usize, "OBL C03.decimal.consumes_prefix_plus_payload");
+		}
+		_ => assert!(r.is_err(), "OBL C03.decimal.bad_negative_oversized_or_unavailable_length_is_err"),
+	}
+	std::mem::forget(r);
+	let mut st = state_over(&DF, input);
+	let r = <i128 as Deserialize>::deserialize(st.deserializer());
+	if len >= 2 {
+		assert!(matches!(r, Ok(v) if v == spec_twos_complement(&input[..2])), "OBL C03.decimal_fixed.value_is_sign_extended");
+		assert!(len - remaining(&mut st.reader) == 2, "OBL C03.decimal_fixed.consumes_fixed_size");
+	} else {
+		assert!(r.is_err(), "OBL C03.decimal_fixed.premature_end_is_err");
+	}
+	std::mem::forget(r);
+}
+
